@@ -958,6 +958,8 @@ fn main() {
         let open_replays: BTreeSet<PathBuf> = out.known.open.iter().map(|e| e.replay.clone()).collect();
         let dir = vcore::verif_root().join("known").join("C12");
         let mut files: Vec<PathBuf> = std::fs::read_dir(&dir).map(|rd| rd.flatten().map(|e| e.path()).collect()).unwrap_or_default();
+        // (canonical inputs of fixed findings may be filed under known/C12/fixed/)
+        files.extend(std::fs::read_dir(dir.join("fixed")).map(|rd| rd.flatten().map(|e| e.path()).collect::<Vec<_>>()).unwrap_or_default());
         files.sort();
         let mut n = 0u64;
         for f in files.iter().filter(|f| f.extension().is_some_and(|x| x == "json") && !open_replays.contains(*f)) {
